@@ -167,7 +167,7 @@ Definition classify (e : exn) : outcome :=
 Definition error_received (s : st) : st * list action :=
   match s_fut s with
   | Some f => (close_transport (if pending s f then complete s f (FExc XOSError) else s), [])
-  | None => (close_transport s, [ALoopExc])      (* AttributeError: 'NoneType' object has no attribute 'set_exception' *)
+  | None => (s, [ALoopExc])      (* AttributeError: 'NoneType' object has no attribute 'set_exception' -- escapes before _close_transport() *)
   end.
 
 (* ---------------------------------------------------------------- the coroutines *)
